@@ -12,6 +12,7 @@ use http::Response;
 pub const OP_WORK_GET: u64 = 1;
 pub const OP_WORK_PUT: u64 = 2;
 pub const OP_HEALTH: u64 = 3;
+pub const OP_WORK_POST: u64 = 4;
 
 async fn do_work(
     rqctx: RequestContext<SimCtx>,
@@ -122,6 +123,15 @@ async fn work_put(
     do_work(rqctx, OP_WORK_PUT, Some(body.as_bytes())).await
 }
 
+/// An endpoint without a body parameter: whatever body a request to it
+/// carries is left unread by the handler.
+#[endpoint { method = POST, path = "/work" }]
+async fn work_post(
+    rqctx: RequestContext<SimCtx>,
+) -> Result<Response<Body>, HttpError> {
+    do_work(rqctx, OP_WORK_POST, None).await
+}
+
 #[endpoint { method = GET, path = "/health" }]
 async fn health(
     rqctx: RequestContext<SimCtx>,
@@ -131,6 +141,7 @@ async fn health(
 
 pub fn register(api: &mut ApiDescription<SimCtx>) {
     api.register(work_get).unwrap();
+    api.register(work_post).unwrap();
     api.register(work_put).unwrap();
     api.register(health).unwrap();
 }
